@@ -425,7 +425,7 @@ class Ctx:
             self.note("Gen/%s.v regenerated (content changed)" % name)
 
     # ---- proofs
-    GEN_PROVIDERS = {"GsmTimeConst": "props.C19:gen", "CodecConst": "props.C16:gen", "TrxdProto": "props.C17:gen", "HoppingTab": "props.C07:gen",
+    GEN_PROVIDERS = {"GsmTimeConst": "props.C19:gen", "GsmTimeSites": "props.C19:gen", "FwGsmtimeConst": "props.C08:gen", "CodecConst": "props.C16:gen", "TrxdProto": "props.C17:gen", "HoppingTab": "props.C07:gen",
                      "FwSchedConst": "props.C08:gen", "ClockConst": "props.C09:gen", "MframeFw": "props.C11:gen", "MframeTrxcon": "props.C11:gen",
                      "SercommConst": "props.C06:gen", "MobAllocConst": "props.C20:gen", "MobAllocSi4Const": "props.C20:gen",
                      "FakeTrxConst": "gen.faketrx:gen_faketrx", "TscTab": "gen.faketrx:gen_faketrx", "TrxdConst": "gen.trxd:gen_trxd", "TrxIfConst": "trxif_util:gen_trxif"}
